@@ -27,7 +27,7 @@ RTOL = 2.0 ** -22
 
 
 def gen_cases(seed, tier):
-    nf = 400 if tier == "quick" else 6000
+    nf = 400 if tier == "quick" else 30000
     npairs = 40 if tier == "quick" else 120
     return [{"cls": "file", "seed": seed * 100000 + i, "pairs": npairs, "_w": 1} for i in range(nf)]
 
